@@ -203,19 +203,22 @@ PROPS = {'C18': {'title': 'Inflights window is a bounded FIFO under resizing',
          'assumptions': ['mode S for raft.rs', 'message shape: contiguous entries with term > 0 (what peers running this library send)'],
          'cone': {'P': [], 'S': ['raft']}},
  'C04': {'title': 'Commit rule: only own-term entries that are durable on a quorum',
-         'modules': ['top', 'prelude', 'pb', 'inflights', 'progress', 'quorum', 'tracker', 'log_unstable', 'storage_trait', 'raft_log', 'raft'],
+         'modules': ['top', 'prelude', 'pb', 'inflights', 'progress', 'quorum', 'tracker', 'log_unstable', 'storage_trait', 'raft_log', 'raft', 'raw_node'],
          'body': {'P': ['quorum', 'tracker', 'log_unstable', 'raft_log'], 'S': ['quorum', 'tracker', 'log_unstable', 'raft_log']},
-         'cone': {'P': ['progress'], 'S': ['progress', 'raft']},
+         'cone': {'P': ['progress'], 'S': ['progress', 'raft', 'raw_node']},
          'modes': ['P', 'S'],
          'claim': 'PARTIAL (leader-side rule per call; follower-side bounds per call)',
          'decided': ['Raft::maybe_commit advances the commit index only to an index <= the quorum index of the active (joint) configuration over the progress '
                      "map's matched indexes (C11) whose entry carries the leader's current term (RaftLog::maybe_commit)",
                      "the leader's own matched index is written only by reset (= persisted) and by on_persist_entries (to the index the log just accepted as "
                      'persisted); maybe_persist refuses indexes at or beyond the first not-yet-written update and requires the stored term to match',
+                     'RawNode::on_persist_ready consumes exactly the leading records whose number is <= the notified one (acked_len), reports only what '
+                     'those records hold (fold_records), and changes nothing when the notice is below the oldest record; commit_ready / advance_append_async '
+                     'never move the persisted index or the progress map; advance_append acknowledges up to max_number',
                      'follower: maybe_append / handle_append_entries never commit beyond min(leader commit, last new index); handle_heartbeat never beyond '
                      'm.commit; heartbeats advertise commit <= matched'],
          'undecided': ["'a non-leader's commit index never moves beyond an index some leader committed' and survival under minority crash (global)"],
-         'assumptions': ['mode S for raft.rs', 'ProgressTracker::get_mut assumed (HashMap::get_mut has no vstd spec)', 'R10/R9 of C11']},
+         'assumptions': ['mode S for raft.rs and raw_node.rs', 'VecDeque::front/back: standard semantics assumed (no vstd spec)', 'ProgressTracker::get_mut assumed (HashMap::get_mut has no vstd spec)', 'R10/R9 of C11']},
  'C15': {'title': 'Snapshot install and log compaction preserve state and safety',
          'modules': ['top', 'prelude', 'pb', 'inflights', 'progress', 'quorum', 'tracker', 'log_unstable', 'storage_trait', 'raft_log', 'raft'],
          'body': {'P': ['log_unstable', 'raft_log', 'progress'], 'S': ['log_unstable', 'raft_log', 'progress']},
